@@ -39,6 +39,8 @@ const (
 	kConcatCmp    = "string-concat-compare"
 	kDeferResult  = "defer-call-result"
 	kDeferSwallow = "defer-swallows-panic"
+	kMultiInit    = "multi-init-global-usage"
+	kMultiDefer   = "multi-defer-recover-result"
 )
 
 type vinfo struct {
@@ -111,6 +113,7 @@ type fctx struct {
 	selfCalls int
 	inLambda  bool
 	inInit    bool
+	nDefers   int
 }
 
 type gen struct {
@@ -503,7 +506,14 @@ func (g *gen) genInt(d int) ex {
 		case g.mayHard() && g.chance(25):
 			// count that may be negative: Go panics, the VM faults
 			e := shrinkTo(g.genInt(d-1), 1<<20, 1021)
-			k = ex{n: bin("%", e.n, ilit(5)), lo: math.Max(-4, -mag(e)), hi: 4, pan: e.pan, hard: e.hard}
+			if e.konst { // a negative constant shift count is a Go compile-time error
+				if ve, ok := g.intVar(); ok {
+					e = shrinkTo(ve, 1<<20, 1021)
+				} else {
+					e = ex{n: ilit(2), lo: 2, hi: 2, konst: true}
+				}
+			}
+			k = ex{n: bin("%", e.n, ilit(5)), lo: math.Max(-4, -mag(e)), hi: 4, pan: e.pan, hard: e.hard, konst: e.konst}
 			if e.lo >= 0 {
 				k.lo = 0
 			}
@@ -563,8 +573,10 @@ func (g *gen) indexFor(v *vinfo, d int) ex {
 	if g.mayPanic() && g.chance(8) {
 		e := g.genInt(d - 1)
 		e = shrinkTo(e, 1<<20, 7)
-		e.pan = true
-		return e
+		if !(e.konst && e.lo < 0) { // a negative constant index is a Go compile-time error
+			e.pan = true
+			return e
+		}
 	}
 	if v.minLen <= 0 {
 		if !g.mayPanic() {
